@@ -135,6 +135,7 @@ func init() {
 		moneyOff, moneySz := fieldOff("Money")
 		levelOff, levelSz := fieldOff("UserLevel")
 		idOff, idSz := fieldOff("UserID")
+		lastLoginOff, _ := fieldOff("LastLogin")
 
 		// ---- the loader (cache.userecRawAddToUHash): which SHM arrays the "fill the slot from its record" block
 		// assigns unconditionally and which only under `if ptttype.USE_COOLDOWN`.  The block is the body of the
@@ -319,6 +320,7 @@ func init() {
 		lf.natList("boolOffsets", boolOffs)
 		lf.nat("userIDOffset", idOff)
 		lf.nat("userIDSize", idSz)
+		lf.nat("lastLoginOffset", lastLoginOff)
 		lf.raw("\n/- cache.userecRawAddToUHash: SHM arrays assigned in the `if !isOnfly || Cstrcmp(...) != 0` block -/\n")
 		lf.nat("preAllocatedUsers", constInt(pc, "PRE_ALLOCATED_USERS"))
 		lf.raw("def loaderCopies : List String := " + quote(loaderCopies) + "\n")
